@@ -2084,7 +2084,29 @@ func (x *Exec) copyOp(args []Value, g *Term, pos token.Pos) Value {
 		}
 		n = c.Ite(c.Ult(dst.Len, src.Len), dst.Len, src.Len)
 		if !n.IsConst() {
-			x.fail("copy with symbolic length")
+			// symbolic length: bounded by the smaller backing array; element i is copied under i < n
+			// (all source elements are read before the first write: memmove semantics)
+			maxN := -1
+			for _, sl := range []*SliceV{dst, src} {
+				if arr, ok := x.force(x.load(sl.Base)).(*ArrayV); ok && sl.Off.IsConst() {
+					if m := len(arr.E) - int(sl.Off.K); maxN < 0 || m < maxN {
+						maxN = m
+					}
+				} else {
+					x.fail("copy with symbolic length needs small array backings with concrete offsets")
+				}
+			}
+			type pair struct{ nv, ov Value }
+			vals := make([]pair, maxN)
+			for i := range vals {
+				vals[i].nv = x.load(x.ptrExtend(src.Base, PathElem{Field: -1, Idx: c.Add(src.Off, c.Const(64, uint64(i)))}))
+				vals[i].ov = x.load(x.ptrExtend(dst.Base, PathElem{Field: -1, Idx: c.Add(dst.Off, c.Const(64, uint64(i)))}))
+			}
+			for i := range vals {
+				in := c.Ult(c.Const(64, uint64(i)), n)
+				x.store(x.ptrExtend(dst.Base, PathElem{Field: -1, Idx: c.Add(dst.Off, c.Const(64, uint64(i)))}), x.merge(in, vals[i].nv, vals[i].ov), g)
+			}
+			return n
 		}
 		vals := make([]Value, n.K)
 		for i := range vals {
